@@ -46,6 +46,15 @@ def harness(cfg, mode, nq):
                 for k in range(nq):
                     a, b = B.sym_query(E, f'p{k}', lo, hi, Fraction(1 + k, 8) + lo.v, Fraction(5 + k, 8) + lo.v, grid)
                     same(E, f'same-seed-same-queries[{k}]', bm1(a, b, **kw), bm2(a, b, **kw))
+            elif mode == 'dyadic-point':   # history of single-argument point queries W(t) (BrownianTree / BrownianPath API)
+                fresh, _, lo, hi = B.make(E, cfg)
+                used, _, _, _ = B.make(E, cfg)
+                for k in range(nq):
+                    a, b = B.sym_query(E, f'p{k}', lo, hi, Fraction(1 + k, 8) + lo.v, hi.v, grid)
+                    used(b)
+                s, t = B.sym_query(E, 'q', lo, hi, lo.v + Fraction(1, 5), lo.v + Fraction(2, 5), grid)
+                same(E, 'history-independent', fresh(s, t, **kw), used(s, t, **kw))
+                same(E, 'history-independent-point', fresh(t), used(t))
             else:   # dyadic: value of a query independent of the history
                 fresh, _, lo, hi = B.make(E, cfg)
                 used, _, _, _ = B.make(E, cfg)
@@ -84,6 +93,7 @@ def tasks_for(tier):
         (dict(levy='davie', size=(1, 2), tol=0.1, halfway=True, t1=Fraction(1, 2)), 'dyadic', 1, mp, to),
         (dict(wrapper='tree', levy='none', size=(1,), tol=0.1, t1=Fraction(1, 2)), 'dyadic', 1, mp, to),
         (dict(levy='space-time', size=(2,), tol=0.1, halfway=True, cache_size=1, t1=Fraction(1, 2)), 'dyadic', 1, mp, to),
+        (dict(wrapper='tree', levy='none', size=(1,), tol=0.1, t1=Fraction(1, 2), w0=1.5), 'dyadic-point', 1, mp, to),
     ]
     if not q:
         T += [
@@ -91,6 +101,7 @@ def tasks_for(tier):
             (dict(levy='space-time', size=(1,), tol=0.1, halfway=True, cache_size=0, t1=Fraction(1, 2)), 'dyadic', 2, mp, to),
             (dict(levy='foster', size=(2, 2), cache_size=2, entropy=9), 'twin-objects', 2, mp, to),
             (dict(levy='none', size=(1,), tol=0.01, halfway=True, t1=Fraction(1, 4)), 'dyadic', 1, mp, to),
+            (dict(wrapper='tree', levy='none', size=(2,), tol=0.1, t1=Fraction(1, 2), w0=-0.75), 'dyadic-point', 2, mp, to),
         ]
     return T
 
@@ -157,7 +168,7 @@ def replay(data):
     def mk():
         t0, t1 = float(Fraction(cfg['t0'])), float(Fraction(cfg['t1']))
         if cfg['wrapper'] == 'tree':
-            return torchsde.BrownianTree(t0=t0, w0=torch.zeros(size, dtype=torch.float64), t1=t1, entropy=cfg['entropy'], tol=cfg['tol'] or 0.1)
+            return torchsde.BrownianTree(t0=t0, w0=torch.full(size, float(cfg.get('w0', 0)), dtype=torch.float64), t1=t1, entropy=cfg['entropy'], tol=cfg['tol'] or 0.1)
         return torchsde.BrownianInterval(t0=t0, t1=t1, size=size, dtype=torch.float64, entropy=cfg['entropy'],
                                          levy_area_approximation=levy, cache_size=cfg['cache_size'], dt=cfg['dt'], tol=cfg['tol'],
                                          halfway_tree=cfg['halfway'])
@@ -172,6 +183,14 @@ def replay(data):
             for k in range(r['nq']):
                 if not eq(b1(*q(f'p{k}'), **kw), b2(*q(f'p{k}'), **kw)):
                     bad.append(f'query {k} differs between two objects with the same entropy')
+        elif r['mode'] == 'dyadic-point':
+            fresh, used = mk(), mk()
+            for k in range(r['nq']):
+                used(q(f'p{k}')[1])
+            if not eq(fresh(*q('q'), **kw), used(*q('q'), **kw)):
+                bad.append('interval value depends on the history of point queries')
+            if not eq(fresh(q('q')[1]), used(q('q')[1])):
+                bad.append('point value W(t) depends on the history of point queries')
         else:
             fresh, used = mk(), mk()
             for k in range(r['nq']):
